@@ -206,6 +206,45 @@ theorem C13_abandon_releases_stream_nowrap (N : Nat) (evs : List Ev) (hcount : a
         (ch.items[ch.taken]? = none → step s' (.recv c dl) = some (s', .closed)) :=
   C13_abandon_releases_stream _ (Acct.run N evs (freshRun_init N evs hcount)) (RouteInv.run N evs) i rest o t c hr hq ho hk hin hmem
 
+/-- A stream dropped without `finish()` is collected at the next frame routed to it: when a search
+item (protocolOp 4, 19, 25) or a well-formed SearchResultDone arrives under the ID of a search whose
+receiver is gone (`rxAlive = false`: `tx.send` fails in the driver), the driver removes the search
+from the search map and releases its ID (fix F8); nothing is pushed into the dead channel, the
+result map, the operations and the driver's state are untouched, and every OTHER search entry and
+reserved ID stays. -/
+theorem C13_dropped_stream_is_collected (s : St) (f : Frame) (c : Nat) (ch : Chan) (hr : s.drv = .running)
+    (hf : s.srvLog[s.pos]? = some f) (hl : lookup s.searchmap f.id = some c) (hc : s.chans[c]? = some ch)
+    (hdead : ch.rxAlive = false) (hop : f.op = 4 ∨ f.op = 25 ∨ f.op = 19 ∨ (f.op = 5 ∧ f.good = true)) :
+    ∃ s', step s .drvResp = some (s', .none) ∧ lookup s'.searchmap f.id = none ∧
+      (∀ k : Nat, (k : Int) = f.id → k ∉ s'.inUse) ∧
+      (∀ p, p ∈ s'.searchmap ↔ p ∈ s.searchmap ∧ (p.1 : Int) ≠ f.id) ∧ (∀ j, j ∈ s'.inUse ↔ j ∈ s.inUse ∧ (j : Int) ≠ f.id) ∧
+      s'.chans = s.chans ∧ s'.resultmap = s.resultmap ∧ s'.ops = s.ops ∧ s'.opQ = s.opQ ∧ s'.drv = .running ∧
+      s'.pos = s.pos + 1 := by
+  refine ⟨_, drvResp_dead_rx s f c ch hr hf hl hc hdead hop, lookup_erase_self _ _,
+    fun k hk hmem => (mem_eraseId.mp hmem).2 hk, fun p => ⟨mem_erase, fun h => mem_erase_of h.1 h.2⟩,
+    fun j => mem_eraseId, rfl, rfl, rfl, rfl, hr, rfl⟩
+
+/-- … and in every reachable state (histories with at most `N` = 2^31-1 allocations) that was the last
+sender of the channel: after the step no sender for channel `c` is left anywhere -/
+theorem C13_dropped_stream_is_collected_nowrap (N : Nat) (evs : List Ev) (hcount : allocCount evs ≤ N)
+    (f : Frame) (c : Nat) (ch : Chan) (hr : (run (init N) evs).drv = .running)
+    (hf : (run (init N) evs).srvLog[(run (init N) evs).pos]? = some f)
+    (hl : lookup (run (init N) evs).searchmap f.id = some c) (hc : (run (init N) evs).chans[c]? = some ch)
+    (hdead : ch.rxAlive = false) (hop : f.op = 4 ∨ f.op = 25 ∨ f.op = 19 ∨ (f.op = 5 ∧ f.good = true)) :
+    ∃ s', step (run (init N) evs) .drvResp = some (s', .none) ∧ lookup s'.searchmap f.id = none ∧
+      (∀ k : Nat, (k : Int) = f.id → k ∉ s'.inUse) ∧ chanOpen s' c = false := by
+  obtain ⟨s', hs, h1, h2, _⟩ := C13_dropped_stream_is_collected _ f c ch hr hf hl hc hdead hop
+  refine ⟨s', hs, h1, h2, ?_⟩
+  obtain ⟨n, hmem, hn⟩ := lookup_some hl
+  have e := drvResp_dead_rx _ f c ch hr hf hl hc hdead hop
+  rw [hs] at e
+  simp only [Option.some.injEq, Prod.mk.injEq] at e
+  have ha := Acct.run N evs (freshRun_init N evs hcount)
+  refine chanOpen_erase_false ha (RouteInv.run N evs) hmem ?_ ?_ ?_
+  · rw [e.1, hn]
+  · rw [e.1]; exact fun j hj => hj
+  · rw [e.1]; exact Tame.refl _
+
 /-- a request whose ID was released while it waited in the queue is discarded: nothing is sent,
 nothing is registered (fix F15) -/
 theorem C13_scrubbed_request_not_registered (s : St) (i : Nat) (rest : List Nat) (o : Op) (b : Bool)
@@ -323,5 +362,22 @@ example :
     chanOpen s1 0 = false ∧ s1.inUse = [] ∧ s1.searchmap = [] ∧
     (step s1 (.recv 0 none)).map (·.2) = some (.item (some (.entry ⟨1, 4, 8, false⟩))) ∧
     (step (run s1 [.recv 0 none]) (.recv 0 none)).map (·.2) = some .closed := by decide
+
+/-- `C13_dropped_stream_is_collected`: a search is started (a second call is outstanding beside it), its
+stream's receiver goes away without a scrub; the next entry under the search's ID meets a dead receiver -/
+def droppedStreamHistory : List Ev :=
+  [.alloc .search, .enqueue 0 none, .alloc .single, .enqueue 1 none, .drvOp true, .drvOp true, .poll 0,
+   .finish 0 false, .srvSend ⟨1, 4, 8, false⟩]
+
+example :
+    let s := run (init 100) droppedStreamHistory
+    allocCount droppedStreamHistory ≤ 100 ∧ s.drv = .running ∧ s.srvLog[s.pos]? = some ⟨1, 4, 8, false⟩ ∧
+    lookup s.searchmap (1 : Int) = some 0 ∧ (s.chans[0]?.map (·.rxAlive)) = some false ∧ s.inUse = [2, 1] ∧
+    s.searchmap = [(1, 0)] ∧ chanOpen s 0 = true := by decide
+
+example :
+    let s1 := run (init 100) (droppedStreamHistory ++ [.drvResp])
+    s1.searchmap = [] ∧ s1.inUse = [2] ∧ s1.resultmap = [(2, 1)] ∧ s1.chans.map (·.items) = [[]] ∧ chanOpen s1 0 = false ∧
+    s1.drv = .running := by decide
 
 end Ldap3V.Conn
